@@ -3,6 +3,7 @@
   cumulative spline and the basis identity Σⱼ B̃ⱼ(u) = K·u (C20.sum_cumulative); (ii) arclength(t ≤ 0) = 0.
 -/
 import SmoothProofs.C12Crop
+import Mathlib.Algebra.Module.Basic
 
 set_option linter.unusedSectionVars false
 
@@ -59,5 +60,87 @@ theorem arclength_nonpos' (s : Spline τ G W) (hI : Inv C s) (habs : ∀ V (a : 
     cases rest with
     | nil => simp [arcFrom, hmin, habs, hw]
     | cons b r => simp [arcFrom, hmin, habs, hw, le_of_lt hT]
+
+/-- hypothesis of the constant-velocity theorems: K equal control velocities `s·v` give `exp(K u s · v)` -/
+def ConstVelKer (C : Ker τ G W) (expo : τ → W → G) : Prop :=
+  ∀ (s : τ) (v : W) (u : τ), C.c (List.replicate C.K (C.wsmul s v)) u = expo ((C.K : τ) * u * s) v
+
+/-! ### make_local -/
+
+/-- `make_local()` only resets `m_g0`: on the first segment the curve is left-translated by `x.start()⁻¹`
+    (same velocity / acceleration), from the first knot on it is UNCHANGED (the stored end points are kept),
+    and so are `t_max` and `end()`. -/
+theorem makeLocal_spec (hK : GroupKer C) (x : Spline τ G W) (sg : Seg τ G W) (post : List (Seg τ G W))
+    (hx : x.segs = sg :: post) (hI : Inv C x) :
+    start (makeLocal C x) = 1 ∧ tMax (makeLocal C x) = tMax x ∧ endG (makeLocal C x) = endG x ∧
+    (∀ t, 0 ≤ t → (t < sg.tEnd ∨ (post = [] ∧ t ≤ sg.tEnd)) →
+      eval C (makeLocal C x) t = liftL x.g0⁻¹ (eval C x t)) ∧
+    (∀ t, sg.tEnd ≤ t → post ≠ [] → eval C (makeLocal C x) t = eval C x t) := by
+  have hI' : InvFrom C x.g0 0 (sg :: post) := by simpa [Inv, hx] using hI
+  obtain ⟨hT, ⟨h0, hD, h1, hg⟩, hrest⟩ := hI'
+  have hle : sg.tEnd ≤ tMax x := by rw [tMax_eq, hx]; exact InvFrom_le_lastT C _ _ _ hrest
+  have hsegs : (makeLocal C x).segs = sg :: post := hx
+  have htm : tMax (makeLocal C x) = tMax x := by rw [tMax_eq, tMax_eq, hsegs, hx]
+  have hen : endG (makeLocal C x) = endG x := by rw [endG_eq, endG_eq, hsegs, hx]; rfl
+  refine ⟨hK.one_eq, htm, hen, ?_, ?_⟩
+  · intro t ht0 ht
+    have htle : t ≤ tMax x := by
+      rcases ht with h | ⟨_, h⟩
+      · exact le_trans (le_of_lt h) hle
+      · exact le_trans h hle
+    rw [eval_inside _ (by rw [hsegs]; simp) ht0 (by rw [htm]; exact htle), eval_inside x (by rw [hx]; simp) ht0 htle, hsegs, hx]
+    have e1 : ∀ g : G, evalFrom C g 0 (sg :: post) t = evalSeg C g 0 sg t := by
+      intro g
+      rcases ht with h | ⟨h, _⟩
+      · exact evalFrom_cons_lt h
+      · subst h; rfl
+    rw [e1, e1]
+    apply evalSeg_reparam hK rfl h0 h0
+    · show (makeLocal C x).g0 * _ = _
+      simp [makeLocal, hK.one_eq]
+    · rfl
+    · rfl
+  · intro t ht hne
+    have ht0 : (0 : τ) ≤ t := le_trans (le_of_lt hT) ht
+    by_cases hout : tMax x < t
+    · rw [eval_after _ ht0 (by rw [htm]; exact hout), eval_after x ht0 hout, hen]
+    · have hin : t ≤ tMax x := not_lt.1 hout
+      rw [eval_inside _ (by rw [hsegs]; simp) ht0 (by rw [htm]; exact hin), eval_inside x (by rw [hx]; simp) ht0 hin, hsegs, hx,
+        evalFrom_cons_ge (not_lt.2 ht) hne, evalFrom_cons_ge (not_lt.2 ht) hne]
+
+/-- on a spline that already starts at the identity `make_local()` is the identity operation -/
+theorem makeLocal_of_identity (hK : GroupKer C) (x : Spline τ G W) (h : x.g0 = 1) : makeLocal C x = x := by
+  cases x with
+  | mk g0 segs => simp only [makeLocal, hK.one_eq]; simp at h; rw [h]
+
+/-! ### FixedCubic end velocities -/
+
+/-- with `c_V'(0) = 3·V₀` and `c_V'(1) = 3·V₂` (cubic cumulative Bernstein basis: `B̃₁'(0) = 3`, `B̃₃'(1) = 3`,
+    all other `B̃ⱼ'` vanish there — C11 `basis_rows_are_derivatives`), FixedCubic has body velocity `va`
+    at `t = 0` and `vb` at `t = T` -/
+theorem fixedCubic_velocities [AddCommGroup W] [Module τ W] (hsm : ∀ (s : τ) (v : W), C.wsmul s v = s • v)
+    (hdv : ∀ (v : W) (s : τ), C.wdivs v s = s⁻¹ • v)
+    (hc0 : ∀ a b c : W, (C.cev [a, b, c] 0).2.1 = (3 : τ) • a) (hc1 : ∀ a b c : W, (C.cev [a, b, c] 1).2.1 = (3 : τ) • c)
+    (gb : G) (va vb : W) {T : τ} (hT : 0 < T) (ga : G) :
+    (eval C (fixedCubic C gb va vb T ga) 0).2.1 = va ∧ (eval C (fixedCubic C gb va vb T ga) T).2.1 = vb := by
+  have hne : T ≠ 0 := ne_of_gt hT
+  have hs : ∀ w : W, ((1 : τ) / T) • (3 : τ) • (3 : τ)⁻¹ • T • w = w := by
+    intro w
+    rw [smul_smul, smul_smul, smul_smul]
+    have : (1 : τ) / T * 3 * 3⁻¹ * T = 1 := by field_simp
+    rw [this, one_smul]
+  have e0 := eval_inside (C := C) (fixedCubic C gb va vb T ga) (t := 0) (by simp [fixedCubic, ctor]) (le_refl _)
+    (by simpa [tMax, fixedCubic, ctor] using le_of_lt hT)
+  have eT := eval_inside (C := C) (fixedCubic C gb va vb T ga) (t := T) (by simp [fixedCubic, ctor]) (le_of_lt hT)
+    (by simp [tMax, fixedCubic, ctor])
+  constructor
+  · rw [e0]
+    simp only [fixedCubic, ctor, evalFrom, evalSeg, tzero, tone, tofNat, sub_zero, zero_div, mul_zero, add_zero]
+    rw [clamp01_id (le_refl _) zero_le_one, hc0, hsm, hdv, hsm]
+    simpa using hs va
+  · rw [eT]
+    simp only [fixedCubic, ctor, evalFrom, evalSeg, tzero, tone, tofNat, sub_zero, zero_add, one_mul]
+    rw [div_self hne, clamp01_id zero_le_one (le_refl _), hc1, hsm, hdv, hsm]
+    simpa using hs vb
 
 end C12
